@@ -31,4 +31,24 @@ def handle : Handler
       let v : Int := Int.ofNat (a.natAbs % (2 ^ (64 * k.toNat)))
       some [.num (a * v)]
   | _, _ => none
+/-- pattern (a natural number of `pn` limbs) repeated `reps` times, by doubling -/
+def repeatLimbs (pat : Nat) (pn : Nat) : Nat → Nat
+  | 0 => 0
+  | r + 1 =>
+    let h := (r + 1) / 2
+    let x := repeatLimbs pat pn h
+    let xx := x + x * 2 ^ (64 * pn * h)
+    if (r + 1) % 2 == 0 then xx else xx + pat * 2 ^ (64 * pn * (2 * h))
+decreasing_by all_goals omega
+
+/-- `mpn_mod_34lsub1` promises a value congruent to the operand modulo 2^48 - 1 (gmp-impl.h), not a canonical residue -/
+def pred : PredHandler
+  | "mpn_mod_34lsub1_rep", [.vec pat, .num reps], out =>
+      match out with
+      | [.num r] =>
+          let pv := pat.zipIdx.foldl (fun acc (l, i) => acc + l * 2 ^ (64 * i)) 0
+          let x := repeatLimbs pv pat.length reps.toNat
+          if 0 ≤ r ∧ r.toNat % (2 ^ 48 - 1) == x % (2 ^ 48 - 1) then some none else some (some "not congruent modulo 2^48-1")
+      | _ => some (some "shape")
+  | _, _, _ => none
 end Mpir.Ops.Extra
